@@ -20,17 +20,21 @@ structure KF (s s' : State) : Prop where
   top : ∀ (k n : Nat), s.top[k]? = some n → s'.top[k]? = some n
   /-- old nodes keep their children (an old expert node has a record) -/
   kids : ∀ m, m < s.nodes.size → kidsX s'.experts (s'.nodeD m).kind = kidsX s.experts (s.nodeD m).kind
+  /-- old expert nodes whose virtual stamp is `-1` keep it (no expert node runs) -/
+  stamp : ∀ m e, m < s.nodes.size → (s.nodeD m).kind = .expert e → ((V s).nodeD m).recomputedAt = -1 →
+    ((V s').nodeD m).recomputedAt = -1
 
 theorem xCore_inj {a b : ExpertRec} (h : xCore a = xCore b) :
     a.f = b.f ∧ a.node = b.node ∧ a.children = b.children ∧ a.pk = b.pk ∧ a.forceStale = b.forceStale := by
   simp only [xCore, Prod.mk.injEq] at h; exact h
 
 theorem KF.refl (s : State) : KF s s :=
-  ⟨Nat.le_refl _, fun _ _ => rfl, fun _ er h => ⟨er, h, rfl⟩, fun _ _ h => h, fun _ _ => rfl⟩
+  ⟨Nat.le_refl _, fun _ _ => rfl, fun _ er h => ⟨er, h, rfl⟩, fun _ _ h => h, fun _ _ => rfl, fun _ _ _ _ h => h⟩
 
 theorem KF.trans {a b c : State} (h1 : KF a b) (h2 : KF b c) : KF a c := by
   refine ⟨Nat.le_trans h1.grow h2.grow, fun m hm => ?_, fun e er he => ?_, fun k n h => h2.top k n (h1.top k n h),
-    fun m hm => by rw [h2.kids m (Nat.lt_of_lt_of_le hm h1.grow), h1.kids m hm]⟩
+    fun m hm => by rw [h2.kids m (Nat.lt_of_lt_of_le hm h1.grow), h1.kids m hm],
+    fun m e hm hk hs => h2.stamp m e (Nat.lt_of_lt_of_le hm h1.grow) ((h1.kind m hm).trans hk) (h1.stamp m e hm hk hs)⟩
   · rw [h2.kind m (Nat.lt_of_lt_of_le hm h1.grow), h1.kind m hm]
   · obtain ⟨er1, he1, c1⟩ := h1.xrec e er he
     obtain ⟨er2, he2, c2⟩ := h2.xrec e er1 he1
@@ -38,7 +42,11 @@ theorem KF.trans {a b c : State} (h1 : KF a b) (h2 : KF b c) : KF a c := by
 
 theorem AF.kf {s s' : State} (F : AF s s') : KF s s' :=
   ⟨Nat.le_of_eq F.size.symm, fun m _ => F.kind m, fun e er he => ⟨er, by rw [F.experts]; exact he, rfl⟩,
-    fun k n h => by rw [F.top]; exact h, fun m _ => by rw [F.kind, F.experts]⟩
+    fun k n h => by rw [F.top]; exact h, fun m _ => by rw [F.kind, F.experts],
+    fun m e _ hk hs => V_stamp_keep hk (F.kind m) (by
+      have := F.node m
+      simp only [aKey, Prod.mk.injEq] at this
+      exact this.2.2.2.2.2.1) (by rw [F.experts]; exact id) hs⟩
 
 theorem nodeD_default_ge (s : State) (m : Nat) (h : s.nodes.size ≤ m) : s.nodeD m = default := by
   simp only [State.nodeD]
@@ -135,8 +143,10 @@ theorem EntryOK.of_frame {env : Env} {s s' : State} (F : KF s s') {op : Nat} {pr
       by rw [this.2.2.1]; exact hch⟩
   · obtain ⟨ed, locs, hed, hd, hcb, hI, h1, h2⟩ := E.edge
     exact ⟨ed, locs, by rw [hc]; exact hed, hd, hcb, F.inst hI, h1, h2⟩
-  · obtain ⟨ed, hed, hd, hb⟩ := E.input
-    exact ⟨ed, by rw [hc]; exact hed, hd, F.below hb⟩
+  · rcases E.input with ⟨ed, hed, hd, hb⟩ | h0
+    · exact Or.inl ⟨ed, by rw [hc]; exact hed, hd, F.below hb⟩
+    · obtain ⟨ep, erp, d0, hk, -⟩ := E.pnode
+      exact Or.inr (F.stamp p ep E.plt hk h0)
   · obtain ⟨ed, hed, hd, hI, hlt⟩ := E.consec
     exact ⟨ed, by rw [hc]; exact hed, hd, F.inst hI, Nat.lt_of_lt_of_le hlt F.grow⟩
 
